@@ -334,8 +334,8 @@ int main(int argc, char* const* argv)
         } else {
             p2sh_script_payload = vchPushValue;
         }
-        ++count;
     }
+    count += script_listing(env->script, env->script.begin()).size();
 
     std::vector<std::string> tc_desc;
     CScript p2sh_script;
@@ -353,8 +353,7 @@ int main(int argc, char* const* argv)
         script_ptrs.push_back(&instance.successor_script);
         script_headers.push_back("<<< scriptPubKey >>>");
         count++;
-        it = instance.successor_script.begin();
-        while (instance.successor_script.GetOp(it, opcode, vchPushValue)) ++count;
+        count += script_listing(instance.successor_script, instance.successor_script.begin()).size();
         if ((env->flags & SCRIPT_VERIFY_P2SH) && instance.successor_script.IsPayToScriptHash()) {
             has_p2sh = true;
             p2sh_script = CScript(p2sh_script_payload.begin(), p2sh_script_payload.end());
@@ -364,8 +363,7 @@ int main(int argc, char* const* argv)
         script_ptrs.push_back(&p2sh_script);
         script_headers.push_back("<<< P2SH script >>>");
         count++;
-        it = p2sh_script.begin();
-        while (p2sh_script.GetOp(it, opcode, vchPushValue)) ++count;
+        count += script_listing(p2sh_script, p2sh_script.begin()).size();
     }
     script_lines = (char**)malloc(sizeof(char*) * count);
 
@@ -381,16 +379,9 @@ int main(int argc, char* const* argv)
         const std::string& header = script_headers[siter];
         if (header != "") script_lines[i++] = strdup(header.c_str());
         if (has_p2sh && script == &p2sh_script) p2sh_lines_start = i;
-        it = script->begin();
-        while (script->GetOp(it, opcode, vchPushValue)) {
-            // build the line in a string: a 520 byte push is 1040 hex characters, more than a fixed 1024 byte buffer holds
-            std::string line = strprintf("#%04d ", i);
-            if (vchPushValue.size() > 0) {
-                line += HexStr(std::vector<uint8_t>(vchPushValue.begin(), vchPushValue.end()));
-            } else {
-                line += GetOpName(opcode);
-            }
-            script_lines[i++] = strdup(line.c_str());
+        for (const std::string& line : script_listing(*script, script->begin())) {
+            script_lines[i] = strdup((strprintf("#%04d ", i) + line).c_str());
+            ++i;
         }
     }
 
